@@ -1,3 +1,4 @@
+\* generated by mkstorecfg.py - C01 thorough
 CONSTANTS
   Kind = "bridge"
   Fixed = TRUE
